@@ -111,6 +111,9 @@ pub enum StopFrom {
     SystemTask,
     ArbiterTask { i: u8 },
     Foreign,
+    /// issued inside `SystemRunner::block_on` (what `#[actix_rt::main]` does), which then keeps the
+    /// loop turning: the arbiters stop although `run` has not been called yet
+    InsideBlockOn,
 }
 
 #[derive(Clone, Copy, Debug, Serialize, Deserialize, PartialEq)]
@@ -345,6 +348,20 @@ fn run_c09(c: &C09Case) -> CaseResult {
                 issue(s2);
             }));
         }
+        StopFrom::InsideBlockOn => {
+            let flags: Vec<Arc<AtomicBool>> = slots.iter().filter(|s| s.arb.is_some() || matches!(s.fate, Fate::Detached)).map(|s| s.parked_dropped.clone()).collect();
+            let all = runner.block_on(async move {
+                issue(System::current());
+                let t0 = Instant::now();
+                while !flags.iter().all(|f| f.load(Ordering::SeqCst)) && t0.elapsed() < WATCHDOG {
+                    tokio::time::sleep(Duration::from_millis(2)).await;
+                }
+                flags.iter().all(|f| f.load(Ordering::SeqCst))
+            });
+            if !all {
+                return Err(Fail::new("C09/arbiter-not-stopped", format!("stop_with_code was issued inside SystemRunner::block_on, which kept the event loop turning for {:?}: some arbiter was still running (the stop is acted on by the system's controller task, not by `run`)", WATCHDOG)));
+            }
+        }
     }
     // run
     let allowed: Vec<i32> = match second {
@@ -413,6 +430,7 @@ fn run_c09(c: &C09Case) -> CaseResult {
     obs.label_if(c.arbiters.iter().any(|f| matches!(f, Fate::StoppedSlowTeardown { .. })), "dead-but-registered-arbiter");
     obs.label_if(matches!(from, StopFrom::ArbiterTask { .. }), "stop-from-arbiter");
     obs.label_if(matches!(from, StopFrom::Foreign), "stop-from-foreign-thread");
+    obs.label_if(matches!(from, StopFrom::InsideBlockOn), "stop-inside-block_on");
     obs.label_if(c.code != 0, "nonzero-code");
     obs.label_if(c.arbiters.iter().any(|f| matches!(f, Fate::BusyBacklog { .. })), "stop-behind-long-queue");
     obs.label_if(had_between, "arbiter-created-between-two-stops");
@@ -517,6 +535,9 @@ pub enum Kind {
     /// sends a function to `System::current().arbiter()` (the system's own arbiter) from inside
     /// the task: it must run on the system's thread, not on this arbiter's
     ViaSystemArbiter,
+    /// like `Nested`, but the task first creates another arbiter with `Arbiter::new()`: the
+    /// creating thread's `Arbiter::current()` must still be the arbiter the task runs on
+    NestedAfterNew,
 }
 
 #[derive(Clone, Copy, Debug, Serialize, Deserialize, PartialEq)]
@@ -809,7 +830,8 @@ fn run_c10(c: &C10Case) -> CaseResult {
                         }
                         Kind::PendForever => std::future::pending::<()>().await,
                         Kind::Panic => panic!("task panics on purpose"),
-                        Kind::Nested => {
+                        Kind::Nested | Kind::NestedAfterNew => {
+                            let other = if matches!(k, Kind::NestedAfterNew) { Some(Arbiter::new()) } else { None };
                             let me = thread::current().id();
                             let sys_here = System::current().id();
                             let sh3 = sh2.clone();
@@ -827,6 +849,11 @@ fn run_c10(c: &C10Case) -> CaseResult {
                             // read after the call: a stop sent before it is visible here
                             if !accepted && !sh4.stop_sent.load(Ordering::SeqCst) {
                                 sh4.wrong.lock().unwrap().push("Arbiter::current().spawn_fn reported false inside a task of an arbiter nobody has stopped: Arbiter::current() does not identify the arbiter the task runs on".into());
+                            }
+                            if let Some(o) = other {
+                                // (whatever was sent to it by mistake runs before its stop)
+                                o.stop();
+                                let _ = o.join();
                             }
                         }
                         Kind::ViaSystemArbiter => {
@@ -1098,7 +1125,7 @@ pub mod gen {
     pub fn c09() -> impl Strategy<Value = C09Case> {
         (
             prop::collection::vec(fate(), 0..4),
-            prop_oneof![1 => Just(StopFrom::SystemBeforeRun), 2 => Just(StopFrom::SystemTask), 2 => any::<u8>().prop_map(|i| StopFrom::ArbiterTask { i }), 2 => Just(StopFrom::Foreign)],
+            prop_oneof![1 => Just(StopFrom::SystemBeforeRun), 2 => Just(StopFrom::SystemTask), 2 => any::<u8>().prop_map(|i| StopFrom::ArbiterTask { i }), 2 => Just(StopFrom::Foreign), 1 => Just(StopFrom::InsideBlockOn)],
             code(),
             prop::option::weighted(0.5, prop_oneof![2 => code().prop_map(|code| Second::Sequenced { code }), 1 => code().prop_map(|code| Second::Racing { code })]),
             prop::bool::weighted(0.25),
@@ -1127,6 +1154,7 @@ pub mod gen {
             2 => any::<u8>().prop_map(|hold| Kind::Gated { hold }),
             1 => Just(Kind::SelfStopThenSpawn),
             1 => Just(Kind::ViaSystemArbiter),
+            1 => Just(Kind::NestedAfterNew),
         ]
     }
 
